@@ -38,9 +38,7 @@ def slices(tier):
     u3 = spaces.unordered_syntenies(3)
     u2 = spaces.unordered_syntenies(2)
     u4 = spaces.unordered_syntenies(4)
-    if tier == "quick":
-        quick_menu = [core[0], core[2], core[4], core[7]]
-        return [
+    quick = [
             ("U3x3x3", spaces.shape_pairs(3, 3), u3, [core[0], core[2], core[6]]),   # default, distinct weights, hgt = 0
             # 4 object leaves: two INHERIT siblings below a node that gains a family (shared-set hazards)
             ("U4x2x2", spaces.shape_pairs(4, 2, min_obj=4), u2, [core[0], core[4], spaces.CV_DISTINCT, spaces.CV_SLOSS3]),
@@ -60,8 +58,11 @@ def slices(tier):
             # stays in the species of the duplication, with a transfer scenario within one segmental loss of it
             ("U4x3x{a,b}/hgt2", spaces.shape_pairs(4, 3, min_obj=4, min_sp=3), [("a",), ("b",)], [(0, 2, 2, 1, 2), (0, 1, 2, 1, 1)]),
         ]
+    if tier == "quick":
+        return quick
     full = core + [c for c in c02.EXTRA_VECTORS if spaces.coherent(c)]
-    return [
+    # thorough: the quick slices that the larger ones below do not subsume, then the larger ones
+    return [q for q in quick if q[0] not in ("U3x3x3", "U5chainx1x3")] + [
         ("U3x3x3", spaces.shape_pairs(3, 3), u3, full),
         ("U4x3x2", spaces.shape_pairs(4, 3, min_obj=4), u2, core),
         ("U4x2x4", spaces.shape_pairs(4, 2, min_obj=4), u4, core[:4]),
